@@ -374,6 +374,11 @@ func (r *RProgram) Messages(maxDev int) []*Message {
 	if r.Root == nil {
 		return nil
 	}
+	if len(r.Root.Fields) > 12 && maxDev > 1 {
+		// wide packets (the universal packet): pairs of deviations would give thousands of long messages per
+		// configuration; they are explored with single deviations under *more* configurations instead
+		maxDev = 1
+	}
 	var out []*Message
 	for i, v := range r.packetVariants(r.Root, 0, maxDev) {
 		out = append(out, &Message{ID: fmt.Sprintf("m%d", i), Packet: r.Root.Name, Val: v})
